@@ -31,7 +31,9 @@ package main
 //   PUT, TOUCH, GET, TRASHLIST(stored mtime), TRASHLIST(stale mtime), DELETE, UNTRASH, EMPTYTRASH,
 //   ADVANCE(1s | trash lifetime | TTL)
 // up to a depth bound, from every initial block age {absent, fresh, TTL-1s, TTL, TTL+1s}, on volume
-// sets {one writable; read-only + writable; two writable}, BlobTrash on/off, BlobTrashLifetime 0 / > 0;
+// sets {one writable; read-only + writable; two writable; read-only-for-this-host-only (mount table flag,
+// driver writable) + writable}, BlobTrash on/off, BlobTrashLifetime 0 / > 0; with two volumes also
+// trash-list entries addressed to one mount (mount_uuid) naming that replica's stored timestamp;
 // each history replayed from scratch inside one controlled execution.  Invariants (from the
 // statement) checked after every event against the real directories:
 //   I1 while now < t + TTL for the last acknowledged PUT/TOUCH at t (an initial copy counts as
@@ -118,7 +120,7 @@ func c04Must(err error) {
 // the system: volumes + router, built from scratch for every execution
 
 type c04Sys struct {
-	vols      string // one letter per volume: w writable, r read-only
+	vols      string // one letter per volume: w writable, r read-only (volume-wide flag), m read-only for this host only
 	cluster   *arvados.Cluster
 	roots     []string
 	mounts    []*VolumeMount
@@ -147,7 +149,11 @@ func c04NewSys(base, vols string, serialize, blobTrash bool, life time.Duration)
 		root := filepath.Join(base, fmt.Sprintf("v%d", p))
 		c04Must(os.MkdirAll(root, 0755))
 		y.roots = append(y.roots, root)
+		// 'r': the volume's own ReadOnly flag (and therefore the mount's); 'm': read-only at mount-table
+		// level only, as makeRRVolumeManager builds it for cluster config AccessViaHosts[thisHost].ReadOnly
+		// (KeepMount.ReadOnly = cfgvol.ReadOnly || va.ReadOnly, the driver sees only cfgvol.ReadOnly=false)
 		ro := vols[p] == 'r'
+		mountRO := ro || vols[p] == 'm'
 		uv := &UnixVolume{
 			Root:      root,
 			Serialize: serialize,
@@ -161,7 +167,7 @@ func c04NewSys(base, vols string, serialize, blobTrash bool, life time.Duration)
 		mnt := &VolumeMount{
 			KeepMount: arvados.KeepMount{
 				UUID:           fmt.Sprintf("zzzzz-nyw5e-%015d", p),
-				ReadOnly:       ro,
+				ReadOnly:       mountRO,
 				Replication:    1,
 				StorageClasses: map[string]bool{"default": true},
 			},
@@ -172,7 +178,7 @@ func c04NewSys(base, vols string, serialize, blobTrash bool, life time.Duration)
 		y.vm.mountMap[mnt.UUID] = mnt
 		y.vm.readables = append(y.vm.readables, mnt)
 		y.vm.iostats[uv] = &ioStats{}
-		if !ro {
+		if !mountRO {
 			y.vm.writables = append(y.vm.writables, mnt)
 		}
 	}
@@ -579,6 +585,9 @@ func c04Age(s string) (time.Duration, bool) {
 
 var c04Events = []string{"PUT", "TOUCH", "GET", "TRASHLIST(stored)", "TRASHLIST(stale)", "DELETE", "UNTRASH", "EMPTYTRASH", "ADVANCE(1s)", "ADVANCE(life)", "ADVANCE(ttl)"}
 
+// with two volumes: additionally trash-list entries addressed to one mount (mount_uuid)
+var c04Events2 = append(append([]string{}, c04Events...), "TRASHLIST(stored,mount0)", "TRASHLIST(stored,mount1)")
+
 type c04HistRun struct {
 	cfg     c04Cfg
 	y       *c04Sys
@@ -609,6 +618,26 @@ func c04Stored(obs []c04Obs) (int64, int) {
 	return 0, -1
 }
 
+// c04Named: the timestamp a trash-list event names and the mount it is addressed to (-1: every
+// mount).  stored = timestamp of the first replica in volume order; stale = one nanosecond less;
+// stored,mountN = timestamp of the replica on volume N, entry carries that mount's UUID.
+func c04Named(ev string, obs []c04Obs) (int64, int) {
+	switch ev {
+	case "TRASHLIST(stored,mount0)", "TRASHLIST(stored,mount1)":
+		p := int(ev[len(ev)-2] - '0')
+		if f, ok := obs[p].block(); ok {
+			return f.mtime, p
+		}
+		m, _ := c04Stored(obs)
+		return m, p
+	case "TRASHLIST(stale)":
+		m, _ := c04Stored(obs)
+		return m - 1, -1
+	}
+	m, _ := c04Stored(obs)
+	return m, -1
+}
+
 func (h *c04HistRun) apply(ev string) {
 	y := h.y
 	h.notes = nil
@@ -633,15 +662,16 @@ func (h *c04HistRun) apply(ev string) {
 		if resp.code == 200 && !bytes.Equal(resp.body, c04B) {
 			h.fail("hist:GET-200-with-wrong-data", fmt.Sprintf("GET -> 200 with %d bytes", len(resp.body)))
 		}
-	case "TRASHLIST(stored)", "TRASHLIST(stale)":
-		m, _ := c04Stored(before)
-		if ev == "TRASHLIST(stale)" {
-			m--
-		}
+	case "TRASHLIST(stored)", "TRASHLIST(stale)", "TRASHLIST(stored,mount0)", "TRASHLIST(stored,mount1)":
+		m, target := c04Named(ev, before)
 		if m <= 0 {
 			m = 1
 		}
-		js, _ := json.Marshal([]TrashRequest{{Locator: c04H, BlockMtime: m}})
+		tr := TrashRequest{Locator: c04H, BlockMtime: m}
+		if target >= 0 {
+			tr.MountUUID = y.mounts[target].UUID
+		}
+		js, _ := json.Marshal([]TrashRequest{tr})
 		resp = y.do("PUT", "/trash", js)
 		vsched.WaitIdle("trash-list-processed")
 	case "DELETE":
@@ -681,7 +711,7 @@ func (h *c04HistRun) apply(ev string) {
 	}
 	// I2: timestamp named in a trash-list entry
 	if strings.HasPrefix(ev, "TRASHLIST") {
-		m, pm := c04Stored(before)
+		m, pm := c04Named(ev, before)
 		for p := range after {
 			fb, hadBlock := before[p].block()
 			if ev == "TRASHLIST(stale)" || (hadBlock && fb.mtime != m) {
@@ -889,7 +919,11 @@ func c04HistModel(r *vrep.Report, base string, cfg c04Cfg, outcomes map[string]i
 		for _, n := range h.notes {
 			outcomes[n]++
 		}
-		o := xstate.Outcome{Canon: h.canon, Enabled: c04Events, Sig: h.sig, Detail: h.detail}
+		enabled := c04Events
+		if len(cfg.Vols) == 2 {
+			enabled = c04Events2
+		}
+		o := xstate.Outcome{Canon: h.canon, Enabled: enabled, Sig: h.sig, Detail: h.detail}
 		if h.sig != "" {
 			o.Stop = true
 		}
@@ -921,13 +955,27 @@ func c04HistConfigs() []c04Cfg {
 	add(c04Cfg{Vols: "rw", Trash: true, Life: life, Init: "ttl+1", InitVol: 0})
 	add(c04Cfg{Vols: "rw", Trash: true, Life: life, Init: "ttl+1", InitVol: 1, Init2: "ttl+1"})
 	add(c04Cfg{Vols: "ww", Trash: true, Life: life, Init: "ttl+1", InitVol: 0, Init2: "ttl-1"})
+	// a mount that is read-only for this host only (AccessViaHosts): the volume driver itself is writable
+	add(c04Cfg{Vols: "mw", Trash: true, Life: life, Init: "ttl+1", InitVol: 0, Init2: "ttl+1"})
 	if vrep.Thorough() {
+		add(c04Cfg{Vols: "mw", Trash: true, Life: 0, Init: "ttl+1", InitVol: 0})
+		add(c04Cfg{Vols: "wm", Trash: true, Life: life, Init: "ttl+1", InitVol: 1, Init2: "ttl-1"})
 		add(c04Cfg{Vols: "w", Trash: false, Life: 0, Init: "ttl-1"})
 		add(c04Cfg{Vols: "rw", Trash: true, Life: 0, Init: "ttl+1", InitVol: 0})
 		add(c04Cfg{Vols: "ww", Trash: true, Life: life, Init: "ttl+1", InitVol: 1, Init2: "ttl+1"})
 		add(c04Cfg{Vols: "ww", Trash: true, Life: 0, Init: "ttl+1", InitVol: 0, Init2: "ttl"})
 		add(c04Cfg{Vols: "wr", Trash: true, Life: life, Init: "absent"})
 	}
+	// the host-only read-only mount early in the list (a time budget may cut the tail)
+	var front, rest []c04Cfg
+	for i, c := range out {
+		if i > 0 && strings.Contains(c.Vols, "m") {
+			front = append(front, c)
+		} else {
+			rest = append(rest, c)
+		}
+	}
+	out = append(append([]c04Cfg{rest[0]}, front...), rest[1:]...)
 	return out
 }
 
